@@ -245,3 +245,8 @@ for _kind, _P in (("bytes password", _Bytes()), ("text password", _Str())):
 MUTANTS += [
     ("safe_crypt: undecodable bytes escape as UnicodeDecodeError", "passlib/utils/__init__.py", "            except UnicodeDecodeError:\n                return None", "            except UnicodeEncodeError:\n                return None", "refute", "safe_crypt"),
 ]
+
+# ---- bcrypt's $2$ emulation (hashing succeeds for every admissible password under every ident, the empty one included) ----
+from contracts import c05 as _c05b  # noqa: E402
+
+CONTRACTS += [_c05b.bcrypt_2_contract]
